@@ -96,7 +96,9 @@ def generate(rng, tier):
         cases.append({"dec": dec, "U": U, "V": V, "extra": extra, "func": func, "axis": rng.choice(["X", "Y"]),
                       "rule": rng.choice(["extend", "fill"]), "fill": rng.choice([0, 4, -3]),
                       "face_pos": rng.randrange(3 + (1 if extra else 0)),
-                      "seed_listing": rng.randrange(10 ** 6) if rng.random() < 0.6 else None, "narrow": narrow})
+                      "seed_listing": rng.randrange(10 ** 6) if rng.random() < 0.6 else None, "narrow": narrow,
+                      "labels": None if rng.random() < 0.7 else rng.choice(
+                          [list(range(1, len(dec["conn"]) + 1)), rng.sample(range(0, 12), len(dec["conn"]))])})
     return cases
 
 
@@ -135,14 +137,15 @@ def run_impl(case):
                 C0 = atlas.chart_apply(c, (i, j))
                 u[f, j, i] = phi(d, U, V, atlas.chart_apply(c, (i - 1, j)), C0)
                 v[f, j, i] = phi(d, U, V, atlas.chart_apply(c, (i, j - 1)), C0)
-    ds = xr.Dataset(coords={"face": np.arange(nf), "xc": np.arange(N), "xg": np.arange(N),
+    lab = case.get("labels") or list(range(nf))      # how the dataset labels its faces
+    ds = xr.Dataset(coords={"face": np.array(lab), "xc": np.arange(N), "xg": np.arange(N),
                             "yc": np.arange(N), "yg": np.arange(N)})
     listed = list(d["conn"])
     if case.get("seed_listing") is not None:
         import random as _r
         _r.Random(case["seed_listing"]).shuffle(listed)
-    fc = {"face": {f: {a: (tuple(l) if l else None, tuple(r) if r else None) for a, (l, r) in fal}
-                   for f, fal in listed}}
+    lk = lambda l: (lab[l[0]], l[1], l[2]) if l else None
+    fc = {"face": {lab[f]: {a: (lk(l), lk(r)) for a, (l, r) in fal} for f, fal in listed}}
     try:
         g = Grid(ds, coords={"X": {"center": "xc", "left": "xg"}, "Y": {"center": "yc", "left": "yg"}},
                  face_connections=fc, periodic=False, autoparse_metadata=False)
